@@ -69,7 +69,7 @@ def spawn(spec, tmp, tag, fi=None):
                     'FI_AT': str(fi.get('at', 0)), 'FI_MODE': fi.get('mode', 'kill_torn')})
         if fi.get('log'):
             env['FI_LOG'] = fi['log']
-    return subprocess.Popen([par.PY, '-m', 'harness.crawlchild', spec_path], cwd=common.VERIF, env=env,
+    return subprocess.Popen([par.PY, '-m', 'harness.crawlchild', spec_path], cwd=tmp, env=env,
                             stdout=subprocess.PIPE, stderr=subprocess.STDOUT, start_new_session=True)
 
 
